@@ -12,6 +12,8 @@ mod c13;
 mod crash;
 mod e1;
 mod e2;
+mod e3;
+mod c20;
 mod c14;
 mod c15;
 mod c16;
@@ -49,6 +51,9 @@ fn main() {
         "c19" => c19::run(&args),
         "e1" => e1::run(&args),
         "e2" => e2::run(&args),
+        "e3" => e3::run(&args),
+        "c20race" => c20::run(&args),
+        "e3child" => e3::run_child(&args),
         "e2child" => e2::run_child(&args),
         "e2recover" => e2::run_recover(&args),
         "e2recoverchild" => e2::run_recover_child(&args),
